@@ -216,6 +216,35 @@ theorem C17_edit_local (k : Kind) (xs : List Atom) (i : Nat) (a : Atom) (j : Nat
   show C17.isStart k.boundary (xs.set i a) j = true ↔ C17.isStart k.boundary xs j = true
   rw [isStart_set_local k.boundary xs i a j h1 h2]
 
+/-- **`spread` refuses a wrong number of values** (audit 6): with `m ≠ 1` segments an input whose length is not `m`
+gives `ValueError` — exactly the complement of the hypothesis of `C17_apply_spread` apart from the case below. -/
+theorem C17_spread_rejects {β : Type} (k : Kind) (xs : List Atom) (input : List β)
+    (h1 : (k.starts xs false).length ≠ 1) (h2 : (k.starts xs false).length ≠ input.length) :
+    spreadSeg (k.starts xs true) input = .error .valueError := by
+  rw [Kind.starts_true] at *
+  rw [(C17_starts_exact k xs).2.2.1] at h1 h2
+  unfold spreadSeg
+  rw [zipWith_withStop]
+  generalize (List.range xs.length).filter (k.isStart xs) = st at *
+  match st, h1, h2 with
+  | [], _, h2 => simp at h2 ⊢; exact fun h => h2 (by simp [h])
+  | [s], h1, _ => simp at h1
+  | s :: t :: r, _, h2 => simp at h2 ⊢; omega
+
+/-- Code as it is (documented contract: "length must equal the number of segments"): with exactly ONE segment
+`np.repeat` broadcasts the single repeat count, so an input of any length is accepted and every value repeated.
+Outside the contract, recorded so that the behaviour is pinned by the correspondence. -/
+theorem C17_spread_single_segment_broadcast {β : Type} (k : Kind) (xs : List Atom) (input : List β)
+    (h1 : (k.starts xs false).length = 1) :
+    ∃ m, spreadSeg (k.starts xs true) input = .ok (input.flatMap (fun x => List.replicate m x)) := by
+  rw [Kind.starts_true]
+  rw [(C17_starts_exact k xs).2.2.1] at h1
+  unfold spreadSeg
+  rw [zipWith_withStop]
+  generalize (List.range xs.length).filter (k.isStart xs) = st at *
+  match st, h1 with
+  | [s], _ => exact ⟨_, rfl⟩
+
 /-! ## molecules -/
 
 /-- **`find_connected`** — the recursive DFS of `_find_connected`, with recursion depth at
@@ -226,11 +255,15 @@ theorem C17_connected (n : Nat) (adj : Nat → List Nat) (r : Nat) (hwf : WF n a
     (∃ l, findConnected n adj (r : Int) = .ok l ∧ l.Pairwise (· < ·) ∧ ∀ v, v ∈ l ↔ Reach adj r v) :=
   ⟨connectedMask_spec n adj r hwf hr, findConnected_spec n adj r hwf hr h32⟩
 
-/-- invalid roots are rejected -/
+/-- invalid roots are rejected, exactly by the class the conversion to `uint32` / the range check gives:
+negative or `≥ 2³²` → `OverflowError`, `n ≤ root < 2³²` → `ValueError` (complement of `hr` in `C17_connected`). -/
 theorem C17_connected_rejects (n : Nat) (adj : Nat → List Nat) (root : Int) :
     (root < 0 → findConnected n adj root = .error .overflowError) ∧
-    (0 ≤ root → root < 4294967296 → (n : Int) ≤ root → findConnected n adj root = .error .valueError) :=
-  findConnected_rejects n adj root
+    (4294967296 ≤ root → findConnected n adj root = .error .overflowError) ∧
+    (0 ≤ root → root < 4294967296 → (n : Int) ≤ root → findConnected n adj root = .error .valueError) := by
+  refine ⟨(findConnected_rejects n adj root).1, fun h => ?_, (findConnected_rejects n adj root).2⟩
+  unfold findConnected
+  rw [if_pos (Or.inr h)]
 
 /-- **`get_molecule_indices`** terminates within `n` iterations and returns exactly the
 connected components of the bond graph: non-empty ascending index lists, pairwise disjoint,
@@ -269,11 +302,11 @@ theorem C17_chain_recursion_depth (n : Nat) (hn : 0 < n) :
 /-! ## regenerated from the source (Gen/C17.lean) -/
 
 /-- The annotations `get_residue_starts` compares are the four of the property statement, the
-chain test is `diff(res_id) < 0` or a chain id change, the empty-array return is `[]` / `[0]`,
+chain test is `res_id[1:] < res_id[:-1]` (no wrapping difference) or a chain id change, the empty-array return is `[]` / `[0]`,
 all three index views use `searchsorted(side="right") - 1` and carry both guards. -/
 theorem C17_gen_tables :
     Gen.C17.residueFields.isPerm ["chain_id", "res_id", "ins_code", "res_name"] = true ∧
-    Gen.C17.chainTerms.isPerm ["chain_id", "diff:res_id:Lt:0"] = true ∧
+    Gen.C17.chainTerms.isPerm ["chain_id", "decrease:res_id"] = true ∧
     Gen.C17.emptyReturns = [([], [0]), ([], [0])] ∧
     Gen.C17.searchSides.map (fun x => (x.2.1, x.2.2)) = [("right", "1"), ("right", "1"), ("right", "1")] ∧
     Gen.C17.guards.map (·.2) = List.replicate 3 [("Lt 0", "ValueError"), ("GtE starts[-1]", "ValueError")] := by
@@ -305,6 +338,10 @@ example : segMasks (residueStarts ex true) [6] = .error .valueError ∧
 example : spreadSeg (chainStarts ex true) (applySeg (chainStarts ex true) List.sum [1, 2, 3, 4, 5, 6]) =
     .ok [6, 6, 6, 4, 11, 11] := by decide
 example : applySeg (residueStarts [] true) List.sum ([] : List Nat) = [] := by decide
+example : spreadSeg (chainStarts ex true) [1, 2] = .error .valueError ∧
+    spreadSeg (residueStarts [⟨0, 1, 0, 0⟩, ⟨0, 1, 0, 0⟩] true) [7, 8, 9] = .ok [7, 7, 8, 8, 9, 9] := by decide
+example : findConnected 5 (neighbours []) 4294967296 = .error .overflowError ∧
+    findConnected 5 (neighbours []) 5 = .error .valueError := by decide
 example : findConnected 5 (neighbours [(0, 1), (3, 1), (2, 4)]) 3 = .ok [0, 1, 3] := by decide
 example : moleculeIndices 5 (neighbours [(0, 1), (3, 1), (2, 4)]) = some [[0, 1, 3], [2, 4]] := by decide
 example : WF 5 (neighbours [(0, 1), (3, 1), (2, 4)]) := neighbours_wf 5 _ (by decide)
